@@ -83,6 +83,10 @@ CHECKS = {
          "TLC closes PyWriter.Namespace o JellyReader.RdNamespace on slices where declarations evict prefixes (prefix table 1-2); simulated behaviours with declarations are replayed through Stream.namespace_declaration and as bindings on "
          "GenericStatementSink / rdflib Graph / Dataset through stream_frames and Graph.serialize (TRIPLES, QUADS, GRAPHS); wire judged by TLC; order and content of what the reader receives, on/off equivalence of the statements, absence when off, and regeneration are compared.",
          "TLC model checking of the namespace slices + replay of TLC behaviours through both integrations + TLC trace judging"),
+ "C17": ("exploration", "6 C17",
+         "spec/Hostile.tla gives the alphabet of structure-aware hostile tokens (declared table sizes up to 2^32-1, ids up to 2^32-1, nesting up to 5000, frame lengths short/long/2^31-1/2^63-1/unterminated, options in odd places, garbage) and TLC checks Progress, Bounded allocation and termination of the abstract parser loop over every token sequence up to MaxLen; "
+         "each sequence, longer random walks and byte-level perturbations of real streams are parsed by all six entry points from BytesIO and non-seekable sources in a worker with RLIMIT_AS and a watchdog. The behaviour of the protobuf C extension is observed, not modelled.",
+         "TLC exhaustive enumeration of hostile token sequences (spec/Hostile.tla) + watchdogged execution of every parse entry point; random byte perturbation"),
  "C18": ("model_checking", "6 C18",
          "PyWriter (with the per-row claim/refusal logic of TermEncoder) is simulated with the Fits guard off over universes whose statements need more prefix/datatype/name entries than the table holds; "
          "each behaviour is replayed into a real Stream: the refusal must come exactly where the model refuses, and whatever was written is judged by TLC against the accepted statements.",
